@@ -281,6 +281,51 @@ def traceOf (x : Inst) (looseness : Int) (force : Bool) : List ANode :=
       let st' := step x looseness force s.1 i
       (st', s.2 ++ st'.active.filter fun ν => ν.path.head? == some i)) ({}, [])).2
 
+/-! ## The pass driver (`break_line` lib.rs:247-269, `break_line_all_attempts` lib.rs:440-490) -/
+
+/-- TeX.2021.816 (`break_line`, lib.rs:256-264): a final glue is removed, `\penalty10000` and
+`\parfillskip` are appended. -/
+def prepList (items : List Item) (pf : Glue) : List Item :=
+  let l := match items.getLast? with
+    | some (.glue _) => items.dropLast
+    | _ => items
+  l ++ [.penalty 10000, .glue pf]
+
+/-- The test hyphenator of the harness: `disc [pre] [] 0` before the item at `pos`, for every
+`(pos, pre)` (positions refer to the list before any insertion). -/
+def insertDiscs (items : List Item) (hs : List (Nat × Int)) : List Item :=
+  let rec go (i : Nat) : List Item → List Item
+    | [] => []
+    | it :: t =>
+      let here := (hs.filter fun h => h.1 = i).map fun h => Item.disc [h.2] [] 0
+      here ++ it :: go (i + 1) t
+  go 0 items
+
+/-- One call of `break_line_single_attempt`: the instance it sees and `force_solution`. -/
+structure Pass where
+  x : Inst
+  force : Bool
+
+/-- The passes of `break_line_all_attempts` (lib.rs:440-490, TeX.2021.863): `\pretolerance` on
+the list as prepared (:451-456), then — after `hyphenator.hyphenate` (:463) — `\tolerance`, final
+iff there is no `\emergencystretch` (:469-475), then `\tolerance` with the emergency stretch,
+final (:482-488). `x.items` is the caller's list, `x.p.tolerance` is `\tolerance`,
+`x.p.emergencyStretch` is `\emergencystretch`, `hyph` is what the hyphenator does to the list. -/
+def passesOf (x : Inst) (pretol : Int) (pf : Glue) (hyph : List Item → List Item) : List Pass :=
+  let l0 := prepList x.items pf
+  let l1 := hyph l0
+  let p1 : Pass := ⟨{ items := l0, p := { x.p with tolerance := pretol, emergencyStretch := 0 } }, false⟩
+  let p2 : Pass := ⟨{ items := l1, p := { x.p with emergencyStretch := 0 } }, x.p.emergencyStretch == 0⟩
+  if x.p.emergencyStretch == 0 then [p1, p2] else [p1, p2, ⟨{ items := l1, p := x.p }, true⟩]
+
+/-- The first pass (numbered from `k`) whose `algo` answers, and its answer (`if let Some(v) = … {
+return v }`, :451-478; the last `.expect` :489). -/
+def algoPasses (q : Int) : Nat → List Pass → Option (Nat × List Nat)
+  | _, [] => none
+  | k, p :: t => match algo p.x q p.force with
+    | some bs => some (k, bs)
+    | none => algoPasses q (k + 1) t
+
 /-- Every discretionary's replaced nodes lie inside the list (else `list[j]` at :808 panics
 once a break at it is made) and are boxes or kerns (TeX.2021.869 allows nothing else; the
 code prints a warning and counts width 0). -/
